@@ -213,13 +213,14 @@ theorem Inv.onDisconnected {s : St} (h : Inv s) {c : Nat} {k : Conn} (hk : s.con
     · cases n with
       | tcp a =>
         simp only
-        exact (hbase _ rfl rfl rfl rfl rfl).connectSingle a _ f
+        refine Inv.connectSingle ?_ a _ f
+        exact hbase _ rfl rfl rfl rfl rfl
       | ro r =>
         simp only
         exact hbase _ rfl rfl rfl rfl rfl
     · cases n with
-      | tcp a => exact hbase _ rfl rfl rfl rfl rfl
-      | ro r => exact hbase _ rfl rfl rfl rfl rfl
+      | tcp a => simp only; exact hbase _ rfl rfl rfl rfl rfl
+      | ro r => simp only; exact hbase _ rfl rfl rfl rfl rfl
 
 theorem Inv.connDisconnect {s : St} (h : Inv s) (c : Nat) (p : Option NodeId) (f : Bool) :
     Inv (s.connDisconnect c p f) := by
@@ -231,5 +232,291 @@ theorem Inv.connDisconnect {s : St} (h : Inv s) (c : Nat) (p : Option NodeId) (f
     split
     · exact h
     · exact h.onDisconnected hk p f
+
+/-! ### What `disconnect()` of one object does to the records of the objects -/
+
+theorem conn?_connConnect (s : St) (x c : Nat) (f : Bool) :
+    (s.connConnect x f).conn? c =
+      if x = c then (s.conn? c).map (fun k => { k with state := if f then .disconnected else .connecting,
+                                                       lastRead := s.now })
+      else s.conn? c := by
+  unfold St.connConnect
+  cases hx : s.conn? x with
+  | none =>
+    by_cases e : x = c
+    · subst e; simp [hx]
+    · simp [e]
+  | some k =>
+    simp only [conn?_setConn]
+    by_cases e : x = c
+    · subst e; simp [hx, conn?_lt hx]
+    · simp [e]
+
+theorem connectSingle_cases (s : St) (a : Nat) (p f : Bool) :
+    s.connectSingle a p f = s ∨
+    (lookup (NodeId.tcp a) s.reg = none ∧ s.connectSingle a p f = s.emit .raised) ∨
+    (∃ x, lookup (NodeId.tcp a) s.reg = some x ∧ s.regLive (NodeId.tcp a) = false ∧
+      s.shouldConnect a p = true ∧ s.recent a = false ∧
+      s.connectSingle a p f = ({ s with lastAttempt := setKey a s.now s.lastAttempt }).connConnect x f) := by
+  unfold St.connectSingle
+  by_cases h1 : s.regLive (NodeId.tcp a) = true
+  · left; simp [h1]
+  · by_cases h2 : s.shouldConnect a p = true
+    · cases hl : lookup (NodeId.tcp a) s.reg with
+      | none => right; left; simp [h1, h2]
+      | some x =>
+        by_cases h3 : s.recent a = true
+        · left; simp [h1, h2, h3]
+        · right; right
+          refine ⟨x, rfl, by simpa using h1, h2, by simpa using h3, ?_⟩
+          simp [h1, h2, h3]
+    · left; simp [h1, h2]
+
+/-- `_connectIfNecessarySingle` touches at most the registered object of the node, keeps its `gen`. -/
+theorem conn?_connectSingle (s : St) (a c : Nat) (p f : Bool) :
+    (s.connectSingle a p f).conn? c = s.conn? c ∨
+    (lookup (NodeId.tcp a) s.reg = some c ∧ ∃ k k', s.conn? c = some k ∧ k.state = .disconnected ∧
+      (s.connectSingle a p f).conn? c = some k' ∧ k'.gen = k.gen ∧ k'.cb = k.cb ∧ k'.dialled = k.dialled ∧
+      k'.state ≠ .connected) := by
+  rcases connectSingle_cases s a p f with e | ⟨_, e⟩ | ⟨x, hl, h1, _, _, e⟩
+  · left; rw [e]
+  · left; rw [e]; rfl
+  · rw [e, conn?_connConnect]
+    by_cases ex : x = c
+    · subst ex
+      cases hk : s.conn? x with
+      | none =>
+        left
+        have hk' : St.conn? { s with lastAttempt := setKey a s.now s.lastAttempt } x = none := hk
+        simp [hk']
+      | some k =>
+        right
+        have hk' : St.conn? { s with lastAttempt := setKey a s.now s.lastAttempt } x = some k := hk
+        refine ⟨hl, k, { k with state := if f then .disconnected else .connecting, lastRead := s.now }, rfl, ?_,
+          by simp [hk'], rfl, rfl, rfl, ?_⟩
+        · simp [St.regLive, St.regConn, hl, hk] at h1; exact h1
+        · cases f <;> simp
+    · left; simp [ex]; rfl
+
+theorem conn?_onDisconnected_other {s : St} (hnd : KeysNodup s.reg) {x c : Nat} (hne : c ≠ x)
+    (p : Option NodeId) (f : Bool) : (s.onDisconnected x p f).conn? c = s.conn? c := by
+  unfold St.onDisconnected
+  simp only
+  cases hn : connToNode x s.reg with
+  | none => rfl
+  | some n =>
+    simp only
+    have hl : lookup n s.reg = some x := lookup_of_mem hnd (connToNode_mem hn)
+    split
+    · cases n with
+      | tcp a =>
+        simp only
+        rcases conn?_connectSingle
+          ({ s with unknown := eraseAll x s.unknown, view := eraseAll (NodeId.tcp a) s.view }.emit
+            (.nodeDisc (NodeId.tcp a))) a c (decide (p = some (NodeId.tcp a))) f with e | ⟨e, _⟩
+        · exact e
+        · have e' : lookup (NodeId.tcp a) s.reg = some c := e
+          rw [hl] at e'; cases e'; exact absurd rfl hne
+      | ro r => rfl
+    · cases n with
+      | tcp a => rfl
+      | ro r => rfl
+
+/-- `_onDisconnected` keeps `gen`, callback binding and kind of every object, and never makes one CONNECTED. -/
+theorem conn?_onDisconnected (s : St) (x c : Nat) (p : Option NodeId) (f : Bool) :
+    (s.onDisconnected x p f).conn? c = s.conn? c ∨
+    ∃ k k', s.conn? c = some k ∧ k.state = .disconnected ∧ (s.onDisconnected x p f).conn? c = some k' ∧
+      k'.gen = k.gen ∧ k'.cb = k.cb ∧ k'.dialled = k.dialled ∧ k'.state ≠ .connected := by
+  unfold St.onDisconnected
+  simp only
+  cases hn : connToNode x s.reg with
+  | none => left; rfl
+  | some n =>
+    simp only
+    split
+    · cases n with
+      | tcp a =>
+        simp only
+        rcases conn?_connectSingle
+          ({ s with unknown := eraseAll x s.unknown, view := eraseAll (NodeId.tcp a) s.view }.emit
+            (.nodeDisc (NodeId.tcp a))) a c (decide (p = some (NodeId.tcp a))) f with e | ⟨_, k, k', e1, e2, e3, e4⟩
+        · left; exact e
+        · right; exact ⟨k, k', e1, e2, e3, e4⟩
+      | ro r => left; rfl
+    · cases n with
+      | tcp a => left; rfl
+      | ro r => left; rfl
+
+theorem conn?_connDisconnect_other {s : St} (hnd : KeysNodup s.reg) {x c : Nat} (hne : c ≠ x)
+    (p : Option NodeId) (f : Bool) : (s.connDisconnect x p f).conn? c = s.conn? c := by
+  unfold St.connDisconnect
+  cases hk : s.conn? x with
+  | none => rfl
+  | some k =>
+    simp only
+    split
+    · rfl
+    · rw [conn?_onDisconnected_other (s := s.setConn x _) hnd hne, conn?_setConn]
+      have : ¬ x = c := fun e => hne e.symm
+      simp [this]
+
+/-- Disconnecting a non-DISCONNECTED object bumps its `gen`; it is not CONNECTED afterwards. -/
+theorem conn?_connDisconnect_self {s : St} {c : Nat} {k : Conn} (hk : s.conn? c = some k)
+    (hst : k.state ≠ .disconnected) (p : Option NodeId) (f : Bool) :
+    ∃ k', (s.connDisconnect c p f).conn? c = some k' ∧ k'.gen = k.gen + 1 ∧ k'.cb = k.cb ∧
+      k'.dialled = k.dialled ∧ k'.state ≠ .connected := by
+  unfold St.connDisconnect
+  simp only [hk, hst, if_false]
+  have hlt := conn?_lt hk
+  have h0 : (s.setConn c { k with state := .disconnected, gen := k.gen + 1 }).conn? c =
+      some { k with state := .disconnected, gen := k.gen + 1 } := by
+    rw [conn?_setConn]; simp [hlt]
+  rcases conn?_onDisconnected (s.setConn c { k with state := .disconnected, gen := k.gen + 1 }) c c p f with
+    e | ⟨k1, k2, e1, _, e3, e4, e5, e6, e7⟩
+  · rw [e, h0]; exact ⟨_, rfl, rfl, rfl, rfl, by simp⟩
+  · rw [h0] at e1; cases e1
+    exact ⟨k2, e3, e4, e5, e6, e7⟩
+
+/-- Any `disconnect()`: every object keeps callback binding and kind, `gen` does not decrease, and an object is
+CONNECTED afterwards only if it was, with the same `gen`. -/
+theorem conn?_connDisconnect (s : St) (x c : Nat) (p : Option NodeId) (f : Bool) :
+    (s.connDisconnect x p f).conn? c = s.conn? c ∨
+    ∃ k k', s.conn? c = some k ∧ (s.connDisconnect x p f).conn? c = some k' ∧ k.gen ≤ k'.gen ∧ k'.cb = k.cb ∧
+      k'.dialled = k.dialled ∧ k'.state ≠ .connected := by
+  unfold St.connDisconnect
+  cases hk : s.conn? x with
+  | none => left; rfl
+  | some k =>
+    simp only
+    split
+    · left; rfl
+    · have hlt := conn?_lt hk
+      rcases conn?_onDisconnected (s.setConn x { k with state := .disconnected, gen := k.gen + 1 }) x c p f with
+        e | ⟨k1, k2, e1, e2, e3, e4, e5, e6, e7⟩
+      · rw [e, conn?_setConn]
+        by_cases ex : x = c
+        · subst ex
+          right
+          exact ⟨k, { k with state := .disconnected, gen := k.gen + 1 }, hk, by simp [hlt], by simp, rfl, rfl,
+            by simp⟩
+        · left; simp [ex]
+      · rw [conn?_setConn] at e1
+        by_cases ex : x = c
+        · subst ex
+          simp [hlt] at e1
+          subst e1
+          right
+          refine ⟨k, k2, hk, e3, ?_, e5, e6, e7⟩
+          simp at e4; omega
+        · simp [ex] at e1
+          right
+          exact ⟨k1, k2, e1, e3, by omega, e5, e6, e7⟩
+
+/-! ### Fields that `connect` / `disconnect` never touch -/
+
+/-- Agreement on the fields no connection-level operation changes. -/
+def SameCfg (s s' : St) : Prop :=
+  s'.reg = s.reg ∧ s'.nodes = s.nodes ∧ s'.selfAddr = s.selfAddr ∧ s'.now = s.now ∧ s'.retry = s.retry ∧
+  s'.timeout = s.timeout ∧ s'.roCounter = s.roCounter ∧ s'.conns.length = s.conns.length
+
+theorem SameCfg.refl (s : St) : SameCfg s s := ⟨rfl, rfl, rfl, rfl, rfl, rfl, rfl, rfl⟩
+
+theorem SameCfg.trans {a b c : St} (h1 : SameCfg a b) (h2 : SameCfg b c) : SameCfg a c := by
+  obtain ⟨a1, a2, a3, a4, a5, a6, a7, a8⟩ := h1
+  obtain ⟨b1, b2, b3, b4, b5, b6, b7, b8⟩ := h2
+  exact ⟨b1.trans a1, b2.trans a2, b3.trans a3, b4.trans a4, b5.trans a5, b6.trans a6, b7.trans a7, b8.trans a8⟩
+
+theorem sameCfg_setConn (s : St) (c : Nat) (k : Conn) : SameCfg s (s.setConn c k) :=
+  ⟨rfl, rfl, rfl, rfl, rfl, rfl, rfl, by simp [St.setConn]⟩
+
+theorem sameCfg_connConnect (s : St) (c : Nat) (f : Bool) : SameCfg s (s.connConnect c f) := by
+  unfold St.connConnect
+  cases s.conn? c with
+  | none => exact SameCfg.refl s
+  | some k => exact sameCfg_setConn s c _
+
+theorem sameCfg_connectSingle (s : St) (a : Nat) (p f : Bool) : SameCfg s (s.connectSingle a p f) := by
+  rcases connectSingle_cases s a p f with e | ⟨_, e⟩ | ⟨x, _, _, _, _, e⟩
+  · rw [e]; exact SameCfg.refl s
+  · rw [e]; exact ⟨rfl, rfl, rfl, rfl, rfl, rfl, rfl, rfl⟩
+  · rw [e]
+    exact SameCfg.trans (b := { s with lastAttempt := setKey a s.now s.lastAttempt })
+      ⟨rfl, rfl, rfl, rfl, rfl, rfl, rfl, rfl⟩ (sameCfg_connConnect _ x f)
+
+theorem sameCfg_onDisconnected (s : St) (c : Nat) (p : Option NodeId) (f : Bool) :
+    SameCfg s (s.onDisconnected c p f) := by
+  unfold St.onDisconnected
+  simp only
+  cases connToNode c s.reg with
+  | none => exact ⟨rfl, rfl, rfl, rfl, rfl, rfl, rfl, rfl⟩
+  | some n =>
+    simp only
+    split
+    · cases n with
+      | tcp a =>
+        simp only
+        exact SameCfg.trans (b := ({ s with unknown := eraseAll c s.unknown,
+                                            view := eraseAll (NodeId.tcp a) s.view }.emit (.nodeDisc (NodeId.tcp a))))
+          ⟨rfl, rfl, rfl, rfl, rfl, rfl, rfl, rfl⟩ (sameCfg_connectSingle _ a _ f)
+      | ro r => exact ⟨rfl, rfl, rfl, rfl, rfl, rfl, rfl, rfl⟩
+    · cases n with
+      | tcp a => exact ⟨rfl, rfl, rfl, rfl, rfl, rfl, rfl, rfl⟩
+      | ro r => exact ⟨rfl, rfl, rfl, rfl, rfl, rfl, rfl, rfl⟩
+
+theorem sameCfg_connDisconnect (s : St) (c : Nat) (p : Option NodeId) (f : Bool) :
+    SameCfg s (s.connDisconnect c p f) := by
+  unfold St.connDisconnect
+  cases s.conn? c with
+  | none => exact SameCfg.refl s
+  | some k =>
+    simp only
+    split
+    · exact SameCfg.refl s
+    · exact SameCfg.trans (sameCfg_setConn s c _) (sameCfg_onDisconnected _ c p f)
+
+theorem connectSingle_prevent (s : St) (a : Nat) (f : Bool) : s.connectSingle a true f = s := by
+  unfold St.connectSingle
+  simp [St.shouldConnect]
+
+/-- `_onDisconnected` while the node is in `_preventConnectNodes` changes no object. -/
+theorem conn?_onDisconnected_prevented {s : St} (hnd : KeysNodup s.reg) {n : NodeId} {x : Nat}
+    (hinj : ∀ n', lookup n' s.reg = some x → n' = n) (f : Bool) (c : Nat) :
+    (s.onDisconnected x (some n) f).conn? c = s.conn? c := by
+  unfold St.onDisconnected
+  simp only
+  cases hn : connToNode x s.reg with
+  | none => rfl
+  | some n' =>
+    have : n' = n := hinj n' (lookup_of_mem hnd (connToNode_mem hn))
+    subst this
+    simp only
+    split
+    · cases n' with
+      | tcp a => simp only [decide_true, connectSingle_prevent]; rfl
+      | ro r => rfl
+    · cases n' with
+      | tcp a => rfl
+      | ro r => rfl
+
+/-- `disconnect()` performed while the node is in `_preventConnectNodes` leaves the object DISCONNECTED. -/
+theorem connDisconnect_prevented {s : St} (hnd : KeysNodup s.reg) {n : NodeId} {x : Nat}
+    (hinj : ∀ n', lookup n' s.reg = some x → n' = n) (f : Bool) :
+    ∀ k', (s.connDisconnect x (some n) f).conn? x = some k' → k'.state = .disconnected := by
+  intro k' hk'
+  unfold St.connDisconnect at hk'
+  cases hk : s.conn? x with
+  | none => rw [hk] at hk'; simp at hk'; rw [hk] at hk'; cases hk'
+  | some k =>
+    rw [hk] at hk'
+    simp only at hk'
+    by_cases hd : k.state = .disconnected
+    · simp only [hd, if_true] at hk'
+      rw [hk] at hk'; cases hk'; exact hd
+    · simp only [hd, if_false] at hk'
+      have hlt := conn?_lt hk
+      rw [conn?_onDisconnected_prevented (s := s.setConn x _) hnd hinj, conn?_setConn] at hk'
+      simp [hlt] at hk'
+      subst hk'
+      rfl
 
 end PSO.Transport
